@@ -60,8 +60,11 @@ def run(rep, tier, seed):
             rep.fail("C12/%s/instantiates_over_dual_numbers" % g, "BUILD", "g++", {"compiler_output": "\n".join(lines)},
                      {"failing_input_reproduced": True, "demonstration": "manif::%s<Jet> does not compile" % g})
             continue
-        items.append(g)
-    rep.parallel(items, lambda r, g: check(r, g, seed))
+        for scn in all_scenarios(g):
+            nsh = 12 if (scn == "jet_rplus_rminus" and g == "SO3") else 1      # the heavy one: one worker per path (mod 12)
+            for i in range(nsh):
+                items.append((g, scn, (i, nsh)))
+    rep.parallel(items, lambda r, it: check(r, it[0], seed, only=it[1], shard=it[2]))
 
 
 def _eq_or_dag(rep, c, path, L, a, b, what):
@@ -69,10 +72,19 @@ def _eq_or_dag(rep, c, path, L, a, b, what):
         taylor.with_taylor(c, TAU, lambda: c.eq(what, c.out(a), c.out(b)))
 
 
-def check(rep, g, seed):
+def all_scenarios(g):
     scns = ["jet_inverse", "jet_log", "jet_exp", "jet_compose_a", "jet_act", "functors"]
     if g in ("SO2", "SE2", "SO3", "R3"):
         scns.append("jet_rplus_rminus")
+    return scns
+
+
+def check(rep, g, seed, only=None, shard=(0, 1)):
+    scns = ["jet_inverse", "jet_log", "jet_exp", "jet_compose_a", "jet_act", "functors"]
+    if g in ("SO2", "SE2", "SO3", "R3"):
+        scns.append("jet_rplus_rminus")
+    if only is not None:
+        scns = [x for x in scns if x == only]
     HARNESS.prefetch(g, scns)
     decl = [("x", "G"), ("y", "G"), ("t", "T"), ("p", "P")]
     spec = {
@@ -89,7 +101,10 @@ def check(rep, g, seed):
         if scn == "functors":
             continue
         n = 0
-        for path in HARNESS.paths(g, scn):
+        for kpath, path in enumerate(HARNESS.paths(g, scn)):
+            if kpath % shard[1] != shard[0]:
+                n += 1
+                continue
             rep.check_budget()
             c = ctx_for(rep, "C12/%s/%s[%s]" % (g, scn, path.script), path, g, decl, seed=seed)
             if c.feasible() == "no":
@@ -105,7 +120,7 @@ def check(rep, g, seed):
                 taylor.with_taylor(c, TAU, lambda c=c, a=a, b=b: c.eq("%s_equals_analytic_%s" % (a, b), c.out(a), c.out(b)))
         if n == 0:
             rep.undecide("C12/%s/%s/paths" % (g, scn), "FEAS", "z3", "no feasible path")
-    for path in HARNESS.paths(g, "functors"):
+    for path in (HARNESS.paths(g, "functors") if "functors" in scns else []):
         c = ctx_for(rep, "C12/%s/functors[%s]" % (g, path.script), path, g, decl, seed=seed)
         if path.thrown:
             if c.feasible() != "no":
